@@ -9,7 +9,8 @@ package main
 //               (`if X == nil {…}` lazy initialisation, enclosing mutex).
 //   aliasInits  which fields of a library instance are initialised from a package-level variable or from a parameter
 //               (composite literal of a constructor, `x.f = param` in constructors and option closures): this is what lets
-//               the model resolve `o.endpoints.Authorization = e` to `op.DefaultEndpoints.Authorization`.
+//               the model resolve a write such as `o.endpoints.Authorization = e` to `op.DefaultEndpoints.Authorization`
+//               when a constructor stores the package-level pointer (F-C20a, repaired: NewProvider now stores a copy).
 //   ctors       constructors (function that builds a struct of its package with a composite literal and returns it) and the
 //               methods they call unconditionally on the new object ("avoid races by calling these early").
 //   getters     methods whose body is `return recv.field`.
